@@ -78,6 +78,11 @@ def run(chk):
         s = an.summ[key]
         tr = tracked_params(an, key)
         is_mutator = owner_cls == "Circuit" and (fi.node.name in CIRCUIT_MUTATORS or (fi.node.name.startswith("_") and not fi.node.name.startswith("__") and _owners(repo, fi.node.name) <= CIRCUIT_MUTATORS))
+        if owner_cls == "Circuit" and fi.node.name.startswith("_") and not fi.node.name.startswith("__") and _owners(repo, fi.node.name) == {fi.node.name}:
+            # a private method that no method of the class reaches: it acts on behalf of callers elsewhere in the package (a helper
+            # of a transform, called on the transform's own working copy). What it does to `self` is an effect on the receiver at
+            # every call site and is charged to the caller's parameters there - not an obligation of its own.
+            is_mutator = True
         is_bb_init = owner_cls == "BlackBox" and fi.node.name == "__init__"
         n_funcs += 1
         if tr:
